@@ -613,6 +613,27 @@ class Unit:
                     ed.add(it['body_open'] + em.start(), it['body_open'] + em.end(), 'SnmpError', 'T1')
                 self.rule('T1', path, line_of(text, it['hdr_a']), '`%s` emitted as inherent `impl<\'a> %s<\'a> { pub fn try_from }` (Verus cannot put a contract on a foreign-trait impl)' % (it['key'], m.group(1)))
                 it['key_t1'] = "impl %s" % m.group(1)
+        # ---- T1b: `impl From<&X> for Vec<u8> { fn from }` -> `pub struct T1_Vec; impl T1_Vec { pub fn from }` (body verbatim) for the
+        #           impls listed in the file's `from_inherent` (Verus cannot put a contract on a foreign-trait impl, and Vec has no
+        #           extensional equality for the FromSpec route); call sites are rewritten by listed RW rules
+        for pat in f.get('from_inherent', []):
+            for it in kept:
+                if not re.search(pat, it['key']) or it['body_open'] is None:
+                    continue
+                m0 = re.match(r"^impl(<[^>]*>)? From<(.+)> for (\w+)(<.*>)?$", it['key'])
+                if not m0:
+                    raise LostAnchor("T1b: %s is not a From impl" % it['key'])
+                tname, targs = m0.group(3), (m0.group(4) or '')
+                ed.add(it['hdr_a'], it['body_open'], "pub struct T1_%s; impl%s T1_%s " % (tname, m0.group(1) or '', tname), 'T1')
+                body = text[it['body_open']:it['b']]
+                fm = re.search(r'\bfn from\(', body)
+                if not fm:
+                    raise LostAnchor("T1b: no fn from in %s" % it['key'])
+                ed.add(it['body_open'] + fm.start(), it['body_open'] + fm.start(), 'pub ', 'T1')
+                for sm in re.finditer(r'->\s*(Self)\b', body):
+                    ed.add(it['body_open'] + sm.start(1), it['body_open'] + sm.end(1), '%s%s' % (tname, targs), 'T1')
+                self.rule('T1', path, line_of(text, it['hdr_a']), '`%s` emitted as `impl T1_%s { pub fn from }` (body verbatim)' % (it['key'], tname))
+                it['key_t1'] = "impl T1_%s" % tname
         # ---- T2: `impl Trait for X { fn f }` -> inherent `impl X { pub fn f }` for the trait named in the unit's [t2] table
         t2 = self.spec.get('t2')
         if t2:
